@@ -347,14 +347,27 @@ func TestVfC11Match(t *testing.T) {
 			perm = append(perm, lines[rapid.IntRange(0, len(lines)-1).Draw(t, "dup")])
 		}
 		mB := domainmatcher.NewMixMatcher()
+		longComments := 0
 		cut := 0
 		if len(perm) > 0 {
 			cut = rapid.IntRange(0, len(perm)).Draw(t, "cut")
 		}
-		decoKinds := rapid.SliceOfN(rapid.IntRange(0, 4), len(perm), len(perm)).Draw(t, "deco")
+		decoKinds := rapid.SliceOfN(rapid.IntRange(0, 21), len(perm), len(perm)).Draw(t, "deco")
+		// comments longer than any read buffer (4 KiB, 8 KiB, 16 KiB ...) but below the loader's 64 KiB line limit
+		decoLens := rapid.SliceOfN(rapid.OneOf(rapid.IntRange(4080, 4110), rapid.IntRange(8180, 8200), rapid.IntRange(4200, 30000)), len(perm), len(perm)).Draw(t, "decoLen")
 		deco := func(off int) func(i int, l []byte) []byte {
 			return func(i int, l []byte) []byte {
-				switch decoKinds[off+i] {
+				k := decoKinds[off+i]
+				if k < 20 {
+					k %= 5
+				}
+				switch k {
+				case 20:
+					longComments++
+					return append(append(append([]byte(nil), l...), " #"...), bytes.Repeat([]byte("q"), decoLens[off+i])...)
+				case 21:
+					longComments++
+					return append(append(append([]byte("#"), bytes.Repeat([]byte("q"), decoLens[off+i])...), '\n'), l...)
 				case 1:
 					return append(append([]byte("  \t"), l...), " \t "...)
 				case 2:
@@ -429,6 +442,9 @@ func TestVfC11Match(t *testing.T) {
 		}
 		if len(entries) == 0 {
 			classes = append(classes, "empty-set")
+		}
+		if longComments > 0 {
+			classes = append(classes, "comment>4KiB")
 		}
 		st.Case(vfkit.Fingerprint(bytes.Join(lines, []byte{'\n'}), fmt.Sprint(probes)), pc || (hasRe && nonLDHProbe) || long, classes, func() any {
 			ls := make([]string, len(lines))
